@@ -30,28 +30,136 @@ pub fn run_threads<F: Future>(workers: usize, fut: F) -> F::Output {
     out
 }
 
-/// Waits for quiescence on the virtual clock: returns when the progress counter (wire events, API events,
-/// polls of internal tasks) did not move across a 1 ms virtual sleep. Because the paused clock only
-/// advances when every task is parked, this means nothing can make progress any more without a timer
-/// firing or a new external action. Returns the number of sleeps taken.
+/// Waits for quiescence: returns when the progress counter (wire events, API events, polls of internal and
+/// harness tasks) did not move across a pause during which the runtime was idle.
+///
+/// Normal case (no (de)serialisation helper thread alive): the pause is a 1 ms *virtual* sleep; the paused clock
+/// only advances when every task is parked, so its return means nothing can make progress any more without a
+/// timer firing or a new external action.
+///
+/// While a `spawn_blocking` helper is alive tokio freezes the paused clock, so a virtual sleep would never
+/// return. In that case the pause is a short real-time one, and quiescence additionally requires that every
+/// helper thread of this runtime is blocked (state `S` in /proc) for three consecutive pauses with the progress
+/// counter unchanged - a fact about the process, not a wall-clock deadline.
 pub async fn settle() -> u32 {
     let mut n = 0;
+    let mut idle_rounds = 0;
     loop {
         let p0 = progress();
-        tokio::time::sleep(Duration::from_millis(1)).await;
-        for _ in 0..3 {
-            tokio::task::yield_now().await;
+        let m = tokio::runtime::Handle::current().metrics();
+        let busy = m.num_blocking_threads().saturating_sub(m.num_idle_blocking_threads());
+        if std::env::var("HARNESS_DEBUG").is_ok() {
+            eprintln!("settle: n={n} busy={busy} blocking={} idle={} progress={p0}", m.num_blocking_threads(), m.num_idle_blocking_threads());
         }
-        n += 1;
-        if progress() == p0 {
-            return n;
+        if busy == 0 {
+            // the virtual sleep fires as soon as the runtime is idle - unless a helper thread starts meanwhile
+            // and freezes the clock; a real-time tick from outside the runtime breaks that wait
+            let virt = tokio::select! {
+                biased;
+                _ = tokio::time::sleep(Duration::from_millis(1)) => true,
+                _ = RealTick::new() => false,
+            };
+            for _ in 0..3 {
+                tokio::task::yield_now().await;
+            }
+            n += 1;
+            if virt && progress() == p0 {
+                return n;
+            }
+            idle_rounds = 0;
+        } else {
+            let _ = tokio::task::spawn_blocking(|| std::thread::sleep(Duration::from_micros(250))).await;
+            for _ in 0..3 {
+                tokio::task::yield_now().await;
+            }
+            n += 1;
+            if progress() == p0 && m.blocking_queue_depth() == 0 && helper_threads_blocked() {
+                idle_rounds += 1;
+                if idle_rounds >= 6 {
+                    return n;
+                }
+            } else {
+                idle_rounds = 0;
+            }
         }
         if n > 200_000 {
-            // Something keeps making "progress" for 200 virtual seconds: treated by callers as livelock
+            // Something keeps making "progress" for a very long time: treated by callers as a livelock
             // candidate (they look at frame budgets / counters), never as a verdict by itself.
             return n;
         }
     }
+}
+
+/// A future that is woken by a process-wide ticker thread (outside any runtime) after about half a millisecond
+/// of real time.
+struct RealTick {
+    registered: bool,
+    fired: std::sync::Arc<std::sync::atomic::AtomicBool>,
+}
+
+static TICKER: std::sync::OnceLock<std::sync::Mutex<Vec<(std::task::Waker, std::sync::Arc<std::sync::atomic::AtomicBool>)>>> = std::sync::OnceLock::new();
+
+impl RealTick {
+    fn new() -> Self {
+        Self { registered: false, fired: std::sync::Arc::new(std::sync::atomic::AtomicBool::new(false)) }
+    }
+}
+
+impl Future for RealTick {
+    type Output = ();
+    fn poll(mut self: std::pin::Pin<&mut Self>, cx: &mut std::task::Context<'_>) -> std::task::Poll<()> {
+        if self.fired.load(std::sync::atomic::Ordering::SeqCst) {
+            return std::task::Poll::Ready(());
+        }
+        if !self.registered {
+            self.registered = true;
+            let q = TICKER.get_or_init(|| {
+                std::thread::Builder::new()
+                    .name("ticker".into())
+                    .spawn(|| {
+                        loop {
+                            std::thread::sleep(Duration::from_micros(500));
+                            let v: Vec<_> = std::mem::take(&mut *TICKER.get().unwrap().lock().unwrap());
+                            for (w, f) in v {
+                                f.store(true, std::sync::atomic::Ordering::SeqCst);
+                                w.wake();
+                            }
+                        }
+                    })
+                    .unwrap();
+                std::sync::Mutex::new(Vec::new())
+            });
+            q.lock().unwrap().push((cx.waker().clone(), self.fired.clone()));
+        }
+        std::task::Poll::Pending
+    }
+}
+
+/// True if every other thread of this shard (helper threads of the blocking pool, including ones that are
+/// just starting and still carry the parent's name) is in a blocked state.
+fn helper_threads_blocked() -> bool {
+    let prefix = thread_prefix();
+    if prefix.is_empty() {
+        return false;
+    }
+    let me = std::fs::read_link("/proc/thread-self").ok().and_then(|p| p.file_name().map(|f| f.to_string_lossy().to_string()));
+    if let Ok(rd) = std::fs::read_dir("/proc/self/task") {
+        for e in rd.flatten() {
+            if Some(e.file_name().to_string_lossy().to_string()) == me {
+                continue;
+            }
+            if let Ok(s) = std::fs::read_to_string(e.path().join("stat")) {
+                if let (Some(l), Some(r)) = (s.find('('), s.rfind(')')) {
+                    let comm = &s[l + 1..r];
+                    let state = s[r + 1..].trim_start().chars().next().unwrap_or('?');
+                    if comm.starts_with(&prefix) && state != 'S' {
+                        return false;
+                    }
+                }
+            }
+        }
+    }
+    true
 }
 
 /// Like [`settle`] but advances virtual time by `d` first (e.g. past connection timeouts).
